@@ -250,3 +250,50 @@ Theorem C07_f62_inv_total_unconditional : forall x, repr62 x ->
             (val62 r * val62 x) mod M62 = (if val62 x =? 0 then 0 else 1).
 Proof. exact (fun x => f62_inv_total x P62_prime). Qed.
 Print Assumptions C07_f62_inv_total_unconditional.
+
+(* ---- round 2: trait defaults of math/src/field/traits.rs instantiated for f62 ---- *)
+From VProofs Require FieldRoots FieldBytesSpec.
+From VModel Require Import FieldBytes.
+
+(* exp_vartime: the generic variable-time loop (f62 overrides only `exp`) *)
+Theorem C07_f62_exp_vartime_sound : forall fuel a p r, repr62 a -> 0 <= p < 2^64 ->
+  f62_exp_vartime fuel a p = Some r -> repr62 r /\ val62 r = (val62 a ^ p) mod M62.
+Proof. exact FieldRoots.R62.f62_exp_vartime_sound. Qed.
+Print Assumptions C07_f62_exp_vartime_sound.
+
+Theorem C07_f62_exp_vartime_terminates : forall a p, 0 <= p < 2^64 ->
+  exists r, f62_exp_vartime 66 a p = Some r.
+Proof. exact FieldRoots.R62.f62_exp_vartime_terminates. Qed.
+Print Assumptions C07_f62_exp_vartime_terminates.
+
+Theorem C07_f62_exp_vartime_agrees : forall fuel a p r, repr62 a -> 0 <= p < 2^64 ->
+  f62_exp_vartime fuel a p = Some r -> val62 r = val62 (f62_exp a p).
+Proof. exact FieldRoots.R62.f62_exp_vartime_agrees. Qed.
+Print Assumptions C07_f62_exp_vartime_agrees.
+
+(* get_root_of_unity(n): order exactly 2^n for 1 <= n <= TWO_ADICITY = 39 *)
+Theorem C07_f62_get_root_of_unity : forall n, 1 <= n <= 39 ->
+  let w := f62_get_root_of_unity n in
+  repr62 w /\ val62 w = f62_G ^ 2 ^ (39 - n) mod M62 /\
+  val62 w ^ 2 ^ n mod M62 = 1 /\ val62 w ^ 2 ^ (n - 1) mod M62 = M62 - 1 /\
+  forall k, 0 < k < 2 ^ n -> val62 w ^ k mod M62 <> 1.
+Proof. exact FieldRoots.R62.f62_get_root_of_unity_spec. Qed.
+Print Assumptions C07_f62_get_root_of_unity.
+
+Theorem C07_f62_get_root_of_unity_ok : forall n, 0 <= n < 2^32 ->
+  f62_get_root_of_unity_ok n = andb (1 <=? n) (n <=? 39).
+Proof. exact FieldRoots.R62.f62_get_root_of_unity_ok_spec. Qed.
+Print Assumptions C07_f62_get_root_of_unity_ok.
+
+(* from_bytes_with_padding (Model/FieldBytes.v), ELEMENT_BYTES = 8 *)
+Theorem C07_f62_from_bytes_with_padding : forall bs, (length bs < 8)%nat -> Forall FieldBytesSpec.byte bs ->
+  f62_from_bytes_with_padding bs = FbOk (f62_new (of_le_bytes bs)) /\
+  0 <= of_le_bytes bs < 256 ^ (8 - 1) /\
+  repr62 (f62_new (of_le_bytes bs)) /\ val62 (f62_new (of_le_bytes bs)) = of_le_bytes bs.
+Proof. exact FieldBytesSpec.f62_from_bytes_with_padding_spec. Qed.
+Print Assumptions C07_f62_from_bytes_with_padding.
+
+Theorem C07_f62_from_bytes_with_padding_long : forall bs, (8 <= length bs)%nat ->
+  f62_from_bytes_with_padding bs = FbAssertLen.
+Proof. exact FieldBytesSpec.f62_from_bytes_with_padding_long. Qed.
+Print Assumptions C07_f62_from_bytes_with_padding_long.
